@@ -1568,6 +1568,17 @@ def m_hint(ex, st, fr, path, args, m):
     return UNIT
 
 
+@model(r"^<(?:std::borrow::)?Cow<.*> as (?:std::ops::)?Deref>::deref$")
+def m_cow_deref(ex, st, fr, path, args, m):
+    r = args[0]
+    c = deref_val(r)
+    if not (isinstance(c, Agg) and c.name == "Cow"):
+        return NotImplemented
+    if c.variant == "Borrowed":
+        return c.fields[0]
+    return Ref(r.cell, r.path + (("f", 0),), None, False, False)
+
+
 @model(r"^<(?:ordered_float::)?OrderedFloat<(f64|f32)> as (?:std::ops::)?(Deref|DerefMut)>::(deref|deref_mut)$")
 def m_ordered_float_deref(ex, st, fr, path, args, m):
     r = args[0]
